@@ -42,7 +42,7 @@ def _tol(dtype, depth):
 def _case(draw, max_w=4, max_ops=10, qudits=None):
     if qudits is None:
         qudits = draw(st.integers(0, 3)) == 0
-    r = draw(GC.circuit_recipes(max_w=max_w, max_ops=max_ops, qudits=qudits, min_ops=1))
+    r = draw(GC.circuit_recipes(max_w=max_w, max_ops=max_ops, qudits=qudits, min_ops=1, wrappers=True))
     n = len(r["dims"])
     idle = draw(st.integers(0, 4)) == 0 and n < 6
     if idle:
@@ -108,7 +108,9 @@ def _nontrivial(r, ops, shape):
     layout = any(len(ax) >= 2 and (list(ax) != sorted(ax) or max(ax) - min(ax) != len(ax) - 1) for _, ax in ops)
     qudit = any(d != 2 for d in shape)
     return {"nontrivial": bool(noncomm and (layout or qudit)), "noncommuting": noncomm, "odd_layout": layout, "qudit": qudit,
-            "has_zero_qubit_op": any(len(ax) == 0 for _, ax in ops)}
+            "has_zero_qubit_op": any(len(ax) == 0 for _, ax in ops), "controlled": any(o.get("ctl") for o in r["ops"]),
+            "qudit_control": any(r["dims"][i] > 2 for o in r["ops"] if o.get("ctl") for i in o["ctl"]["w"]),
+            "qudit_pow": any(o["g"][0] in GC.QUDIT_POW for o in r["ops"])}
 
 
 def _cmp(what, got, want, tol, phase=False):
